@@ -90,3 +90,22 @@ Theorem C02_write_breakpoints_spec : forall gen idx rows, write_breakpoints gen 
   Forall2 (fun (row : bprow) i => nthZ gen i = Some (snd row)) rows idx.
 Proof. exact write_breakpoints_spec. Qed.
 Print Assumptions C02_write_breakpoints_spec.
+
+(* centimorgan ends: with a genetic map whose cM is a monotone function of bp on every chromosome,
+   every tract end of every generation is a marker point of the map, hence cM ends never decrease *)
+From HV Require Import C02_Cm.
+Theorem C02_generations_on_map :
+  forall (mk : Z -> Z -> Z -> Prop) chroms ends,
+  (forall i c ebp ecm, nth_error chroms i = Some c -> nth_error ends i = Some (ebp, ecm) -> mk c ebp ecm) ->
+  forall gens prev g, gen_on_map mk prev ->
+  Forall (Forall (fun d => evs_on_map mk (d_evs d))) gens ->
+  sim_generations chroms ends prev gens = Ok g -> gen_on_map mk g.
+Proof. exact generations_on_map. Qed.
+Print Assumptions C02_generations_on_map.
+
+Theorem C02_on_map_cm_monotone :
+  forall (mk : Z -> Z -> Z -> Prop),
+  (forall c b1 m1 b2 m2, mk c b1 m1 -> mk c b2 m2 -> b1 < b2 -> m1 <= m2) ->
+  forall l, sorted l -> Forall (on_map mk) l -> cm_monotone l = true.
+Proof. exact on_map_cm_monotone. Qed.
+Print Assumptions C02_on_map_cm_monotone.
